@@ -199,11 +199,18 @@ package node_info
 //@   inline
 //@ end
 
+// C13 "any sequence of virtual ... nominate ... steps that an action later discards, or rolls back ... leaves the
+// scheduler's view of nodes ... exactly as it was" / C14: un-nominating a sharer must be the MIRROR of nominating it.
+// Nominating a sharer onto group g takes one whole GPU out of Releasing exactly when, before it arrived, all used
+// memory of g was releasing (used[g] == releasing[g], which includes the unused group 0 == 0). The question is asked
+// after the sharer's memory has been taken back out of used[g] / put back into releasing[g], i.e. in that same
+// "before it arrived" state. (The contract used to copy the code, which compared the state WITH the sharer:
+// used+m == releasing-m; finding C14-pipelined-mirror, fixed in /repo.)
 //@ func (*NodeInfo).isPipelinedToReleasingGpu
-//@   props C02 C14
+//@   props C02 C14 C13
 //@   requires ni != nil && task != nil && task.ResReq != nil
 //@   pure
-//@   ensures result == (ni.UsedSharedGPUsMemory[gpuGroup] + needMem(ni, task.ResReq) == ni.ReleasingSharedGPUsMemory[gpuGroup] - needMem(ni, task.ResReq) || (ni.UsedSharedGPUsMemory[gpuGroup] == 0 && ni.ReleasingSharedGPUsMemory[gpuGroup] == 0))
+//@   ensures [mirrorOfNomination] result == (ni.UsedSharedGPUsMemory[gpuGroup] == ni.ReleasingSharedGPUsMemory[gpuGroup])
 //@ end
 
 // C14/C02: a sharer of GPU group g with memory need m is accounted per status:
@@ -228,6 +235,9 @@ package node_info
 
 // C14/C02: removal mirrors the addition for every status (used[g] -= m; Releasing: releasing[g] -= m, allocated[g] -= m;
 // Pipelined: releasing[g] += m; other: allocated[g] -= m). Idle gains at most one whole GPU, only when the group closes.
+// C13: for a nominated (Pipelined) sharer the whole-GPU part is the exact mirror too: Releasing gets one GPU back iff,
+// in the state after the removal (= the state before the nomination), all used memory of g is releasing - the very
+// condition under which addSharedTaskResourcesPerPodGroup took it away ([releasingGpus] there: old(used) == old(releasing)).
 //@ func (*NodeInfo).removeSharedTaskResourcesPerPodGroup
 //@   props C02 C14
 //@   requires nodeWF(ni) && task != nil && task.ResReq != nil
@@ -236,7 +246,7 @@ package node_info
 //@   ensures [releasing] ni.ReleasingSharedGPUsMemory[gpuGroup] == old(ni.ReleasingSharedGPUsMemory[gpuGroup]) - ite(task.Status == pod_status.Releasing, needMem(ni, task.ResReq), ite(task.Status == pod_status.Pipelined, 0 - needMem(ni, task.ResReq), 0))
 //@   ensures [allocated] ni.AllocatedSharedGPUsMemory[gpuGroup] == old(ni.AllocatedSharedGPUsMemory[gpuGroup]) - ite(task.Status == pod_status.Pipelined, 0, needMem(ni, task.ResReq))
 //@   ensures [marker] markedReleasing(ni, gpuGroup) == ite(task.Status == pod_status.Releasing, old(markedReleasing(ni, gpuGroup)) && ni.UsedSharedGPUsMemory[gpuGroup] > 0, ite(task.Status == pod_status.Pipelined, old(markedReleasing(ni, gpuGroup)), old(markedReleasing(ni, gpuGroup)) || gpuReleasingFromShared(ni, gpuGroup)))
-//@   ensures [releasingGpus] ni.Releasing.gpus == old(ni.Releasing.gpus) + ite(task.Status == pod_status.Releasing, ite(old(markedReleasing(ni, gpuGroup)) && ni.UsedSharedGPUsMemory[gpuGroup] <= 0, 0.0 - 1.0, 0.0), ite(task.Status == pod_status.Pipelined, ite(old(ni.UsedSharedGPUsMemory[gpuGroup]) == old(ni.ReleasingSharedGPUsMemory[gpuGroup]) || (ni.UsedSharedGPUsMemory[gpuGroup] == 0 && ni.ReleasingSharedGPUsMemory[gpuGroup] == 0), 1.0, 0.0), ite(!old(markedReleasing(ni, gpuGroup)) && gpuReleasingFromShared(ni, gpuGroup), 1.0, 0.0)))
+//@   ensures [releasingGpus] ni.Releasing.gpus == old(ni.Releasing.gpus) + ite(task.Status == pod_status.Releasing, ite(old(markedReleasing(ni, gpuGroup)) && ni.UsedSharedGPUsMemory[gpuGroup] <= 0, 0.0 - 1.0, 0.0), ite(task.Status == pod_status.Pipelined, ite(ni.UsedSharedGPUsMemory[gpuGroup] == ni.ReleasingSharedGPUsMemory[gpuGroup], 1.0, 0.0), ite(!old(markedReleasing(ni, gpuGroup)) && gpuReleasingFromShared(ni, gpuGroup), 1.0, 0.0)))
 //@   ensures [idleGpus] ni.Idle.gpus == old(ni.Idle.gpus) || (ni.Idle.gpus == old(ni.Idle.gpus) + 1.0 && task.Status != pod_status.Pipelined && ni.UsedSharedGPUsMemory[gpuGroup] <= 0)
 //@   ensures nodeWF(ni)
 //@ end
@@ -596,4 +606,43 @@ package node_info
 //@   ensures [vectors] len(result.IdleVector) == len(vectorMap.resourceNames) && len(result.UsedVector) == len(vectorMap.resourceNames) && len(result.ReleasingVector) == len(vectorMap.resourceNames) && len(result.AllocatableVector) == len(vectorMap.resourceNames)
 //@   ensures [wf] nodeGpuMemory(node) > 0 ==> nodeWF(result)
 //@   ensures [podsWF] result.PodInfos != nil && fresh(result.PodInfos) && result.LegacyMIGTasks != nil && fresh(result.LegacyMIGTasks)
+//@ end
+
+// the accounting of the node did not move (cpu, memory, whole GPUs, every scalar resource incl. presence in Idle)
+//@ define acctUntouched(ni *NodeInfo) bool = ni.Used.milliCpu == old(ni.Used.milliCpu) && ni.Used.memory == old(ni.Used.memory) && ni.Used.gpus == old(ni.Used.gpus) && ni.Idle.milliCpu == old(ni.Idle.milliCpu) && ni.Idle.memory == old(ni.Idle.memory) && ni.Idle.gpus == old(ni.Idle.gpus) && ni.Releasing.milliCpu == old(ni.Releasing.milliCpu) && ni.Releasing.memory == old(ni.Releasing.memory) && ni.Releasing.gpus == old(ni.Releasing.gpus)
+//@ define acctScalarsUntouched(ni *NodeInfo) bool = forall k v1.ResourceName :: ni.Used.scalarResources[k] == old(ni.Used.scalarResources[k]) && ni.Idle.scalarResources[k] == old(ni.Idle.scalarResources[k]) && ni.Releasing.scalarResources[k] == old(ni.Releasing.scalarResources[k]) && (k in ni.Idle.scalarResources <==> old(k in ni.Idle.scalarResources))
+// the tasks of the list from index `from` on can be handed to AddTask, and no task occurs twice
+//@ define tasksAddable(ni *NodeInfo, ts []*pod_info.PodInfo, from int) bool = forall i int :: from <= i && i < len(ts) ==> taskWF(ts[i]) && taskSeparate(ni, ts[i])
+//@ define tasksDistinct(ts []*pod_info.PodInfo) bool = forall i int, j int :: 0 <= i && i < j && j < len(ts) ==> ts[i] != ts[j]
+
+// C14/C01/C12 (snapshot): "every snapshot charges the pod's resources ... to the selected node" /
+// "pods already occupying the node (running, terminating, bound or being bound)": every pod of the list whose status
+// occupies the node (Allocated, Pipelined, Binding, Bound, Running, Releasing) has been handed to AddTask (which charges
+// it by status, see AddTask/addTaskResources) and is recorded on the node afterwards; pods in any other status
+// (Pending, Gated, Succeeded, Failed, Unknown: "their pods become schedulable again") are charged NOWHERE: if no pod of
+// the list occupies the node, the node accounting does not move at all.  Every pod of the list is registered in
+// existingPodsMap under its UID and returned, in order.
+//@ func (*NodeInfo).AddTasksToNode
+//@   props WIPcache
+//@   requires nodeWF(ni) && podsWF(ni) && existingPodsMap != nil && existingPodsMap != ni.PodInfos
+//@   requires tasksAddable(ni, podInfos, 0) && tasksDistinct(podInfos)
+//@   modifies existingPodsMap[*], family(podInfos[0].AcceptedResource), family(podInfos[0].ResourceReceivedType), ni.PodInfos[*], ni.LegacyMIGTasks[*], ni.Used.milliCpu, ni.Used.memory, ni.Used.gpus, ni.Used.scalarResources[*], ni.Idle.milliCpu, ni.Idle.memory, ni.Idle.gpus, ni.Idle.scalarResources[*], ni.Releasing.milliCpu, ni.Releasing.memory, ni.Releasing.gpus, ni.Releasing.scalarResources[*], ni.UsedVector[*], ni.IdleVector[*], ni.ReleasingVector[*], ni.UsedSharedGPUsMemory[*], ni.ReleasingSharedGPUsMemory[*], ni.AllocatedSharedGPUsMemory[*], ni.ReleasingSharedGPUs[*], sumIdleGPUs(ni), sumIdleGPUMem(ni), sumReleasingGPUs(ni), sumReleasingGPUMem(ni)
+//@   loop 1
+//@     invariant 0 - 1 <= rangeindex && rangeindex < len(podInfos)
+//@     invariant nodeWF(ni) && podsWF(ni)
+//@     invariant tasksAddable(ni, podInfos, rangeindex + 1)
+//@     invariant len(resultPods) == rangeindex + 1 && (forall i int :: 0 <= i && i <= rangeindex ==> resultPods[i] == podInfos[i].Pod)
+//@     invariant forall i int :: 0 <= i && i < len(podInfos) ==> podInfos[i] != nil && podInfos[i].Status == old(podInfos[i].Status) && podInfos[i].Pod == old(podInfos[i].Pod) && podInfos[i].UID == old(podInfos[i].UID)
+//@     invariant forall i int :: 0 <= i && i <= rangeindex && pod_status.inActiveUsed(podInfos[i].Status) ==> pod_info.podKeyOf(podInfos[i].Pod) in ni.PodInfos
+//@     invariant forall i int :: 0 <= i && i <= rangeindex ==> podInfos[i].UID in existingPodsMap && existingPodsMap[podInfos[i].UID] != nil && existingPodsMap[podInfos[i].UID].UID == podInfos[i].UID
+//@     invariant forall k common_info.PodID :: old(k in existingPodsMap) ==> k in existingPodsMap
+//@     invariant forall k common_info.PodID :: old(k in ni.PodInfos) ==> k in ni.PodInfos
+//@     invariant (forall i int :: 0 <= i && i <= rangeindex ==> !pod_status.inActiveUsed(podInfos[i].Status)) ==> acctUntouched(ni) && acctScalarsUntouched(ni)
+//@   ensures [allReturned] len(resultPods) == len(podInfos) && (forall i int :: 0 <= i && i < len(podInfos) ==> resultPods[i] == podInfos[i].Pod)
+//@   ensures [occupyingPodsRecorded] forall i int :: 0 <= i && i < len(podInfos) && pod_status.inActiveUsed(podInfos[i].Status) ==> pod_info.podKeyOf(podInfos[i].Pod) in ni.PodInfos
+//@   ensures [othersNotCharged] (forall i int :: 0 <= i && i < len(podInfos) ==> !pod_status.inActiveUsed(podInfos[i].Status)) ==> acctUntouched(ni) && acctScalarsUntouched(ni)
+//@   ensures [registered] forall i int :: 0 <= i && i < len(podInfos) ==> podInfos[i].UID in existingPodsMap && existingPodsMap[podInfos[i].UID] != nil && existingPodsMap[podInfos[i].UID].UID == podInfos[i].UID
+//@   ensures [registeredKept] forall k common_info.PodID :: old(k in existingPodsMap) ==> k in existingPodsMap
+//@   ensures [recordedKept] forall k common_info.PodID :: old(k in ni.PodInfos) ==> k in ni.PodInfos
+//@   ensures [wf] nodeWF(ni) && podsWF(ni)
 //@ end
